@@ -6,22 +6,20 @@
   Hypotheses beyond the property's own wording (each is a region where the real code was run):
   * `C17_version_order`: components below 2^31 (parse_version stores strtol's long in an int).
   * `C17_exact`: the namespace is not "GIRepository" (special-cased by the library: only 2.0 is ever
-    looked for); the namespace is not registered yet (`C17_conflict_mismatch_partial` covers the rest).
+    looked for); the namespace is not registered yet (`C17_conflict_mismatch` covers the rest).
   * `C17_latest`: "directory index" counts the directories of the path that exist; a file counts as a
     version of `ns` when `entryVersion` accepts its name (`C17_candidate_names`: for `ns-v.typelib`
     with no '-' in `v` that is "parse_version accepts v"); every *.typelib file is a valid typelib.
-  * `C17_inv_partial` / `C17_require_loaded` / `C17_load_loaded`: (1) `staleKey = false`: no EAGER require / load of
-    a LAZILY loaded namespace found a typelib with another header than the lazily loaded one (the C code does not
-    look at the lazy entry: it searches again, skips the conflict check and registers what it finds under the OLD
-    key; witness `C17_eager_over_lazy_counterexample`).  Transitions that find the same contents again are covered.
-    (2) `Ranked` / `HdrRanked`: no namespace depends on itself through recorded dependencies (cycles are invalid
-    input: the C code recurses without bound).  Histories are otherwise arbitrary.
+  * `C17_inv` / `C17_require_loaded` / `C17_load_loaded`: acyclic dependencies only — `Ranked` (no namespace
+    depends on itself through the dependencies recorded in the files), `LazyRanked` (the same for the typelibs
+    that are lazily loaded in the start state; empty for the initial state) and `Guarded` (the same for the
+    typelibs a history loads from memory).  Cycles are invalid input: the C code recurses without bound.
+    Histories are otherwise arbitrary.
   * `C17_dependencies_exact`: the loaded typelibs are acyclic, every recorded dependency of a registered typelib
     is registered (true under the invariant when nothing is lazily loaded: `C17_deps_known`), and the model's
     recursion bound exceeds the rank of the namespace (the C code has no bound).
   * `C17_private_dir`: as `C17_exact`.
-  * `C17_conflict_mismatch_partial`: a lazily loaded namespace is only recognised as loaded when the LAZY flag is
-    given (see (1)); everything else of the statement's conflict / mismatch sentence is proved.
+  * `C17_conflict_mismatch`: none (the statement's sentence in full).
 -/
 import GIVerif.Lemmas.Repo
 
@@ -44,12 +42,13 @@ theorem C17_source_shape :
     ∧ Gen.Repo.envVar = "GI_TYPELIB_PATH"
     ∧ Gen.Repo.selfName.toList = selfName ∧ Gen.Repo.selfVersion.toList = selfVersion
     ∧ Gen.Repo.repoShape =
-      ["status", "return-registered", "conflict", "explicit", "tmp-version-requested", "latest", "notfound",
-       "ns-check", "version-check-name", "register", "eager-first", "eager-check", "lazy-second", "not-lazy-null", "lazy-check",
+      ["status", "return-registered", "conflict", "promote-lazy", "explicit", "tmp-version-requested", "latest",
+       "notfound", "ns-check", "version-check-name", "register", "eager-first", "eager-check", "lazy-second",
+       "not-lazy-conflict-null", "lazy-check",
        "cmp:v1_major>v2_major:1;v2_major>v1_major:-1;v1_minor>v2_minor:1;v2_minor>v1_minor:-1",
        "cand:result > 0;result < 0;c1->path_index == c2->path_index;c1->path_index > c2->path_index",
        "prepend:g_slist_prepend", "init:g_slist_prepend,g_slist_prepend,g_slist_reverse", "sort:g_slist_sort",
-       "dep-require:dependency_version", "load:status,conflict,register",
+       "dep-require:dependency_version", "load:status,conflict,promote-lazy,register",
        "transition:deps-first,lookup-lazy-key,steal,else-build-key,insert-eager"] := by
   decide
 
@@ -123,8 +122,8 @@ theorem C17_prepend (fs : FS) (fuel : Nat) (env : Option Str) (libdir : Str) (op
     it ⇒ NotFound with the state unchanged; header ≠ file name ⇒ NamespaceMismatch with both tables
     unchanged; otherwise the file is registered (with its dependencies) under its path; and a
     successful call always returns a typelib of namespace `ns`, version `v`. -/
-theorem C17_exact (fs : FS) (fuel : Nat) (s : Repo) (ns v : Str) (lazy b : Bool) (path : List Str)
-    (hns : ns ≠ selfName) (hst : getRegisteredStatus s ns (some v) lazy = .absent b) :
+theorem C17_exact (fs : FS) (fuel : Nat) (s : Repo) (ns v : Str) (lazy : Bool) (path : List Str)
+    (hns : ns ≠ selfName) (hst : getRegisteredStatus s ns (some v) lazy = .absent none) :
     (findVersion fs ns v path = none →
       (∀ d ∈ path, ¬ DirHas fs d (exactFileName ns v)) ∧
       requireInternal fs (fuel + 1) s ns (some v) lazy path = (s, .error .notFound)) ∧
@@ -177,8 +176,8 @@ theorem C17_exact (fs : FS) (fuel : Nat) (s : Repo) (ns v : Str) (lazy b : Bool)
     ones it lies in the earliest directory (`Elected`); a header naming another namespace, or another
     version than the file name, ⇒ NamespaceMismatch with both tables unchanged; else that file is
     registered under its path. -/
-theorem C17_latest (fs : FS) (fuel : Nat) (s : Repo) (ns : Str) (lazy b : Bool) (path : List Str)
-    (hst : getRegisteredStatus s ns none lazy = .absent b) :
+theorem C17_latest (fs : FS) (fuel : Nat) (s : Repo) (ns : Str) (lazy : Bool) (path : List Str)
+    (hst : getRegisteredStatus s ns none lazy = .absent none) :
     (findLatest fs ns path = none ↔ allMatches fs ns path = []) ∧
     (allMatches fs ns path = [] →
       requireInternal fs (fuel + 1) s ns none lazy path = (s, .error .notFound)) ∧
@@ -238,45 +237,64 @@ theorem C17_candidate_names (ns v : Str) (hns : ns ≠ selfName) (hv : '-' ∉ v
 
 /-! ### conflicts and mismatches -/
 
-/-- Already registered: another version ⇒ VersionConflict and the state unchanged; the same version
-    (or no version asked) ⇒ the SAME typelib and the state unchanged — for eagerly loaded namespaces
-    with any flags, for lazily loaded ones when the LAZY flag is given.  Not registered and the
-    header differs from the file name ⇒ NamespaceMismatch and nothing registered: namespace or
-    version, for an explicit version as for the elected latest file.  Load-from-memory: registered
-    at another version ⇒ VersionConflict, at this version ⇒ the registered typelib, nothing
-    registered in either case. -/
-theorem C17_conflict_mismatch_partial (fs : FS) (fuel : Nat) (s : Repo) (ns : Str) (lazy : Bool)
+/-- The statement's conflict / mismatch sentence in full.  Already registered — eagerly OR lazily,
+    whatever the flags of this call — at another version ⇒ VersionConflict and the state unchanged.
+    Registered at an agreeing version (or no version asked) ⇒ it is returned: the SAME typelib and the
+    state unchanged when it is eagerly loaded, or lazily loaded and the LAZY flag is given; a lazily
+    loaded one required WITHOUT the LAZY flag is promoted — `register_internal` on the typelib that is
+    there (its dependencies get loaded, it moves to the eager table under its source), no file is
+    searched, and success returns that same typelib.  Not registered and the header differs from the
+    file name ⇒ NamespaceMismatch and nothing registered: namespace or version, for an explicit
+    version as for the elected latest file.  Load-from-memory: registered at another version ⇒
+    VersionConflict, at this version ⇒ the registered typelib (lazily loaded and no LAZY flag: that
+    typelib is promoted), the typelib passed in is not registered in either case. -/
+theorem C17_conflict_mismatch (fs : FS) (fuel : Nat) (s : Repo) (ns : Str) (lazy : Bool)
     (path : List Str) :
     (∀ l v, lookupTbl s.typelibs ns = some l → l.tl.hdr.ver ≠ v →
       requireInternal fs (fuel + 1) s ns (some v) lazy path = (s, .error .versionConflict)) ∧
     (∀ l ver, lookupTbl s.typelibs ns = some l → (∀ v, ver = some v → l.tl.hdr.ver = v) →
       requireInternal fs (fuel + 1) s ns ver lazy path = (s, .ok l.tl)) ∧
     (∀ l v, lookupTbl s.typelibs ns = none → lookupTbl s.lazy ns = some l → l.tl.hdr.ver ≠ v →
-      requireInternal fs (fuel + 1) s ns (some v) true path = (s, .error .versionConflict)) ∧
+      requireInternal fs (fuel + 1) s ns (some v) lazy path = (s, .error .versionConflict)) ∧
     (∀ l ver, lookupTbl s.typelibs ns = none → lookupTbl s.lazy ns = some l →
       (∀ v, ver = some v → l.tl.hdr.ver = v) →
-      requireInternal fs (fuel + 1) s ns ver true path = (s, .ok l.tl)) ∧
-    (∀ b v f, getRegisteredStatus s ns (some v) lazy = .absent b → findVersion fs ns v path = some f →
+      requireInternal fs (fuel + 1) s ns ver true path = (s, .ok l.tl) ∧
+      requireInternal fs (fuel + 1) s ns ver false path =
+        registerInternalWith (fun s' dn dv => requireInternal fs fuel s' dn (some dv) false s'.searchPath)
+          s l.source false l.tl ∧
+      (∀ t, (requireInternal fs (fuel + 1) s ns ver false path).2 = .ok t → t = l.tl)) ∧
+    (∀ v f, getRegisteredStatus s ns (some v) lazy = .absent none → findVersion fs ns v path = some f →
       (f.hdr.ns ≠ ns ∨ f.hdr.ver ≠ v) →
       (requireInternal fs (fuel + 1) s ns (some v) lazy path).2 = .error .mismatch ∧
       (requireInternal fs (fuel + 1) s ns (some v) lazy path).1.typelibs = s.typelibs ∧
       (requireInternal fs (fuel + 1) s ns (some v) lazy path).1.lazy = s.lazy) ∧
-    (∀ b c, getRegisteredStatus s ns none lazy = .absent b → findLatest fs ns path = some c →
+    (∀ c, getRegisteredStatus s ns none lazy = .absent none → findLatest fs ns path = some c →
       (c.hdr.ns ≠ ns ∨ c.hdr.ver ≠ c.version) →
       (requireInternal fs (fuel + 1) s ns none lazy path).2 = .error .mismatch ∧
       (requireInternal fs (fuel + 1) s ns none lazy path).1.typelibs = s.typelibs ∧
       (requireInternal fs (fuel + 1) s ns none lazy path).1.lazy = s.lazy) ∧
-    (∀ (hdr : Hdr) v, getRegisteredStatus s hdr.ns (some hdr.ver) lazy = .conflict v →
+    (∀ (hdr : Hdr) l, (lookupTbl s.typelibs hdr.ns = some l ∨
+        (lookupTbl s.typelibs hdr.ns = none ∧ lookupTbl s.lazy hdr.ns = some l)) → l.tl.hdr.ver ≠ hdr.ver →
       loadTypelib fs fuel s hdr lazy = ({ s with nextId := s.nextId + 1 }, .error .versionConflict)) ∧
     (∀ (hdr : Hdr) t, getRegisteredStatus s hdr.ns (some hdr.ver) lazy = .found t →
-      loadTypelib fs fuel s hdr lazy = ({ s with nextId := s.nextId + 1 }, .ok t)) := by
+      loadTypelib fs fuel s hdr lazy = ({ s with nextId := s.nextId + 1 }, .ok t)) ∧
+    (∀ (hdr : Hdr) l, getRegisteredStatus s hdr.ns (some hdr.ver) lazy = .absent (some l) →
+      loadTypelib fs fuel s hdr lazy =
+        registerInternalWith (fun s' dn dv => requireInternal fs fuel s' dn (some dv) false s'.searchPath)
+          { s with nextId := s.nextId + 1 } builtinSource lazy l.tl) := by
   have hsame : ∀ hdr : Hdr, getRegisteredStatus { s with nextId := s.nextId + 1 } hdr.ns (some hdr.ver) lazy
       = getRegisteredStatus s hdr.ns (some hdr.ver) lazy := fun _ => rfl
-  refine ⟨?_, ?_, ?_, ?_, ?_, ?_, ?_, ?_⟩
+  have hconfE : ∀ (n : Str) l v (lz : Bool), lookupTbl s.typelibs n = some l → l.tl.hdr.ver ≠ v →
+      getRegisteredStatus s n (some v) lz = .conflict l.tl.hdr.ver := by
+    intro n l v lz hl hne
+    simp [getRegisteredStatus, hl, checkVersionConflict, Ne.symm hne]
+  have hconfL : ∀ (n : Str) l v (lz : Bool), lookupTbl s.typelibs n = none → lookupTbl s.lazy n = some l →
+      l.tl.hdr.ver ≠ v → getRegisteredStatus s n (some v) lz = .conflict l.tl.hdr.ver := by
+    intro n l v lz hE hL hne
+    cases lz <;> simp [getRegisteredStatus, hE, hL, checkVersionConflict, Ne.symm hne]
+  refine ⟨?_, ?_, ?_, ?_, ?_, ?_, ?_, ?_, ?_⟩
   · intro l v hl hne
-    have : getRegisteredStatus s ns (some v) lazy = .conflict l.tl.hdr.ver := by
-      simp [getRegisteredStatus, hl, checkVersionConflict, Ne.symm hne]
-    simp [requireInternal, this]
+    simp [requireInternal, hconfE ns l v lazy hl hne]
   · intro l ver hl hv
     have : getRegisteredStatus s ns ver lazy = .found l.tl := by
       cases ver with
@@ -284,76 +302,46 @@ theorem C17_conflict_mismatch_partial (fs : FS) (fuel : Nat) (s : Repo) (ns : St
       | some v => simp [getRegisteredStatus, hl, checkVersionConflict, (hv v rfl).symm]
     simp [requireInternal, this]
   · intro l v hE hL hne
-    have : getRegisteredStatus s ns (some v) true = .conflict l.tl.hdr.ver := by
-      simp [getRegisteredStatus, hE, hL, checkVersionConflict, Ne.symm hne]
-    simp [requireInternal, this]
+    simp [requireInternal, hconfL ns l v lazy hE hL hne]
   · intro l ver hE hL hv
-    have : getRegisteredStatus s ns ver true = .found l.tl := by
+    have h1 : getRegisteredStatus s ns ver true = .found l.tl := by
       cases ver with
       | none => simp [getRegisteredStatus, hE, hL, checkVersionConflict]
       | some v => simp [getRegisteredStatus, hE, hL, checkVersionConflict, (hv v rfl).symm]
-    simp [requireInternal, this]
-  · intro b v f hst hf hne
+    have h2 : getRegisteredStatus s ns ver false = .absent (some l) := by
+      cases ver with
+      | none => simp [getRegisteredStatus, hE, hL, checkVersionConflict]
+      | some v => simp [getRegisteredStatus, hE, hL, checkVersionConflict, (hv v rfl).symm]
+    have h3 : requireInternal fs (fuel + 1) s ns ver false path =
+        registerInternalWith (fun s' dn dv => requireInternal fs fuel s' dn (some dv) false s'.searchPath)
+          s l.source false l.tl := by
+      simp [requireInternal, h2]
+    refine ⟨by simp [requireInternal, h1], h3, ?_⟩
+    intro t ht
+    rw [h3] at ht
+    exact register_ok_eq _ _ _ _ _ ht
+  · intro v f hst hf hne
     simp only [requireInternal, hst, findFile, hf, Option.map_some]
     by_cases h1 : f.hdr.ns = ns
     · have h2 : f.hdr.ver ≠ v := hne.resolve_left (fun h => h h1)
       simp [h1, h2]
     · simp [h1]
-  · intro b c hst hc hne
+  · intro c hst hc hne
     simp only [requireInternal, hst, findFile, hc, Option.map_some]
     by_cases h1 : c.hdr.ns = ns
     · have h2 : c.hdr.ver ≠ c.version := hne.resolve_left (fun h => h h1)
       simp [h1, h2]
     · simp [h1]
-  · intro hdr v hc
+  · intro hdr l hl hne
+    have hc : getRegisteredStatus s hdr.ns (some hdr.ver) lazy = .conflict l.tl.hdr.ver := by
+      rcases hl with hl | ⟨hE, hL⟩
+      · exact hconfE hdr.ns l hdr.ver lazy hl hne
+      · exact hconfL hdr.ns l hdr.ver lazy hE hL hne
     simp only [loadTypelib, hsame, hc]
   · intro hdr t hf
     simp only [loadTypelib, hsame, hf]
-
-/-- The statement's "a file whose contents name another namespace OR VERSION than its file name is
-    refused", for the elected latest file, "a version conflict is reported" for load-from-memory, and the
-    same for a lazily loaded namespace whatever the flags of the second require.  The first two clauses
-    hold (clauses 6 and 7 of `C17_conflict_mismatch_partial`); the third FAILS on the unchanged code
-    (witness below); kept as the full statement. -/
-def C17_conflict_mismatch_full : Prop :=
-  (∀ (fs : FS) (fuel : Nat) (s : Repo) (ns : Str) (lazy b : Bool) (path : List Str) (c : Cand),
-    getRegisteredStatus s ns none lazy = .absent b → findLatest fs ns path = some c →
-    (c.hdr.ns ≠ ns ∨ c.hdr.ver ≠ c.version) →
-    (requireInternal fs (fuel + 1) s ns none lazy path).2 = .error .mismatch) ∧
-  (∀ (fs : FS) (fuel : Nat) (s : Repo) (hdr : Hdr) (lazy : Bool) (v : Str),
-    getRegisteredStatus s hdr.ns (some hdr.ver) lazy = .conflict v →
-    loadTypelib fs fuel s hdr lazy = ({ s with nextId := s.nextId + 1 }, .error .versionConflict)) ∧
-  (∀ (fs : FS) (fuel : Nat) (s : Repo) (ns : Str) (lazy : Bool) (path : List Str) (l : Loaded) (v : Str),
-    lookupTbl s.typelibs ns = none → lookupTbl s.lazy ns = some l → l.tl.hdr.ver ≠ v →
-    requireInternal fs (fuel + 1) s ns (some v) lazy path = (s, .error .versionConflict))
-
-def bar12 : FS := [("/d".toList, [⟨"Bar-1.0.typelib".toList, ⟨"Bar".toList, "1.0".toList, []⟩⟩,
-                                  ⟨"Bar-2.0.typelib".toList, ⟨"Bar".toList, "2.0".toList, []⟩⟩]),
-                   ("/p".toList, [⟨"Bar-1.0.typelib".toList, ⟨"Bar".toList, "1.0".toList, []⟩⟩])]
-
-/-- Bar 1.0 lazily loaded; requiring Bar 2.0 WITHOUT the LAZY flag is no version conflict: Bar-2.0.typelib
-    is loaded and registered under the key of the lazy entry — version 2.0 is reported with the path of
-    Bar-1.0.typelib.  And after a lazy require_private from /p, the eager `require Bar 1.0` through a
-    search path without that file fails with NotFound although Bar 1.0 is loaded.  (Both replayed on
-    the real library: corpus/C17/pending_findings.json.) -/
-theorem C17_eager_over_lazy_counterexample :
-    (let r := run bar12 3 (Repo.init ["/d".toList])
-        [.require "Bar".toList (some "1.0".toList) true, .require "Bar".toList (some "2.0".toList) false]
-     getVersion r "Bar".toList = some "2.0".toList ∧
-     getTypelibPath r "Bar".toList = some "/d/Bar-1.0.typelib".toList ∧ r.staleKey = true) ∧
-    (let s := run bar12 3 (Repo.init ["/nowhere".toList]) [.requirePrivate "/p".toList "Bar".toList (some "1.0".toList) true]
-     getVersion s "Bar".toList = some "1.0".toList ∧
-     (require bar12 3 s "Bar".toList (some "1.0".toList) false).2 = .error .notFound) := by
-  decide
-
-theorem C17_conflict_mismatch_full_fails : ¬ C17_conflict_mismatch_full := by
-  intro h
-  have := h.2.2 bar12 2
-    (run bar12 3 (Repo.init ["/d".toList]) [.require "Bar".toList (some "1.0".toList) true])
-    "Bar".toList false ["/d".toList] ⟨"/d/Bar-1.0.typelib".toList, ⟨0, ⟨"Bar".toList, "1.0".toList, []⟩⟩⟩
-    "2.0".toList (by decide) (by decide) (by decide)
-  revert this
-  decide
+  · intro hdr l ha
+    simp only [loadTypelib, hsame, ha]
 
 /-! ### invariants over all histories -/
 
@@ -362,37 +350,24 @@ theorem C17_conflict_mismatch_full_fails : ¬ C17_conflict_mismatch_full := by
     one version, per namespace in each table; the lazy and the eager table are disjoint; every
     recorded dependency of an eagerly loaded namespace is loaded at the recorded version; the source
     reported for an entry is "<builtin>" or a file that exists and holds exactly that header.
-    Lazy → eager transitions are INCLUDED: the entry moves to the eager table under its old source, its
-    dependencies having been loaded first.
-    Hypotheses: see the header (staleKey = false, acyclic dependencies — `Guarded` only asks the
-    in-memory typelibs of the history to be acyclic too). -/
-theorem C17_inv_partial (fs : FS) (fuel : Nat) (rank : Str → Nat) (s : Repo) (ops : List Op)
-    (hr : Ranked fs rank) (hinv : Inv fs s) (hg : Guarded fs fuel rank s ops)
-    (hst : (run fs fuel s ops).staleKey = false) : Inv fs (run fs fuel s ops) :=
-  (run_inv hr fuel ops s hinv hg hst).1
+    Lazy → eager transitions included: the typelib that is there moves to the eager table under its
+    source, its dependencies having been loaded first.
+    Hypotheses: acyclic dependencies only (see the header). -/
+theorem C17_inv (fs : FS) (fuel : Nat) (rank : Str → Nat) (s : Repo) (ops : List Op)
+    (hr : Ranked fs rank) (hinv : Inv fs s) (hlz : LazyRanked rank s) (hg : Guarded fs fuel rank s ops) :
+    Inv fs (run fs fuel s ops) :=
+  (run_inv hr fuel ops s hinv hlz hg).1
 
 /-- the initial state satisfies the invariant -/
 theorem C17_inv_init (fs : FS) (path : List Str) : Inv fs (Repo.init path) :=
   ⟨by simp [Repo.init], by simp [Repo.init], (by intro l hl; cases hl), (by intro l hl; cases hl),
    (by intro l hl; cases hl)⟩
 
-/-- The property's wording without the exclusions (see `C17_eager_over_lazy_counterexample`: version
-    2.0 reported with the path of Bar-1.0.typelib). -/
-def C17_inv_full : Prop :=
-  ∀ (fs : FS) (fuel : Nat) (path : List Str) (ops : List Op), Inv fs (run fs fuel (Repo.init path) ops)
-
-/-- The eager require over a lazily loaded namespace breaks the invariant (source clause) in the model as
-    in the library: Bar 2.0 is registered under the path of Bar-1.0.typelib. -/
-theorem C17_inv_full_fails : ¬ C17_inv_full := by
-  intro h
-  have := (h bar12 3 ["/d".toList]
-    [.require "Bar".toList (some "1.0".toList) true, .require "Bar".toList (some "2.0".toList) false]).paths
-    ⟨"/d/Bar-1.0.typelib".toList, ⟨1, ⟨"Bar".toList, "2.0".toList, []⟩⟩⟩ (by decide)
-  rcases this with h | ⟨d, es, e, hd, he, hp, hh⟩
-  · revert h; decide
-  · have hall : ∀ q ∈ bar12, ∀ e ∈ q.2, ¬ ("/d/Bar-1.0.typelib".toList = buildFilename q.1 e.name ∧
-        e.hdr = ⟨"Bar".toList, "2.0".toList, []⟩) := by decide
-    exact hall _ (lookupDir_mem hd) e he ⟨hp, hh⟩
+/-- …hence after every history a process can run (the repository starts empty). -/
+theorem C17_inv_from_init (fs : FS) (fuel : Nat) (rank : Str → Nat) (path : List Str) (ops : List Op)
+    (hr : Ranked fs rank) (hg : Guarded fs fuel rank (Repo.init path) ops) :
+    Inv fs (run fs fuel (Repo.init path) ops) :=
+  C17_inv fs fuel rank _ ops hr (C17_inv_init fs path) (by intro l hl; cases hl) hg
 
 /-- What the queries report is what is stored: under the invariant, for the entry `l` of namespace
     `ns` (unique), version / path / immediate dependencies are those of `l`, whose source is
@@ -448,8 +423,7 @@ theorem C17_reports (fs : FS) (s : Repo) (l : Loaded) (hinv : Inv fs s) (hl : l 
     loaded at the recorded version, and the reported path is "<builtin>" or a file that exists and
     holds exactly the header of the returned typelib. -/
 theorem C17_require_loaded (fs : FS) (fuel : Nat) (rank : Str → Nat) (s : Repo) (ns : Str) (ver : Option Str)
-    (path : List Str) (hr : Ranked fs rank) (hinv : Inv fs s)
-    (hst : (requireInternal fs fuel s ns ver false path).1.staleKey = false) :
+    (path : List Str) (hr : Ranked fs rank) (hinv : Inv fs s) (hlz : LazyRanked rank s) :
     Inv fs (requireInternal fs fuel s ns ver false path).1 ∧
     (∀ l ∈ s.typelibs, l ∈ (requireInternal fs fuel s ns ver false path).1.typelibs) ∧
     (∀ tl, (requireInternal fs fuel s ns ver false path).2 = .ok tl →
@@ -460,7 +434,7 @@ theorem C17_require_loaded (fs : FS) (fuel : Nat) (rank : Str → Nat) (s : Repo
       (∀ d ∈ tl.hdr.deps, DepLoaded (requireInternal fs fuel s ns ver false path).1 d) ∧
       (∃ p, getTypelibPath (requireInternal fs fuel s ns ver false path).1 ns = some p ∧
         (p = builtinSource ∨ FileAt fs p tl.hdr))) := by
-  obtain ⟨hp, hok⟩ := require_post hr fuel s ns ver false path hinv hst
+  obtain ⟨hp, hok⟩ := require_post hr fuel s ns ver false path hinv hlz
   refine ⟨hp.inv, hp.ext, ?_⟩
   intro tl htl
   obtain ⟨h1, h2, h3⟩ := hok tl htl
@@ -474,72 +448,30 @@ theorem C17_require_loaded (fs : FS) (fuel : Nat) (rank : Str → Nat) (s : Repo
     exact hp.inv.deps l hl d (by rw [hlt]; exact hd)
 
 /-- `g_irepository_load_typelib` WITHOUT the LAZY flag of a typelib with header `hdr` (which may record
-    dependencies), under the invariant: afterwards the invariant holds,
-    nothing loaded eagerly is lost, and on success the namespace is loaded eagerly at version `hdr.ver`
-    with every recorded dependency of the registered typelib loaded at the recorded version (from the
-    global search path); when the namespace was not registered before (`absent`), what is registered
-    is exactly `hdr`, under the source "<builtin>". -/
+    dependencies), under the invariant: afterwards the invariant holds, nothing loaded eagerly is lost,
+    and on success the namespace is loaded eagerly at version `hdr.ver` with every recorded dependency
+    of the registered typelib loaded at the recorded version (from the global search path); when the
+    namespace was in neither table before, what is registered is exactly `hdr`, under the source
+    "<builtin>". -/
 theorem C17_load_loaded (fs : FS) (fuel : Nat) (rank : Str → Nat) (s : Repo) (hdr : Hdr)
-    (hr : Ranked fs rank) (hinv : Inv fs s) (hrank : HdrRanked rank hdr)
-    (hst : (loadTypelib fs fuel s hdr false).1.staleKey = false) :
+    (hr : Ranked fs rank) (hinv : Inv fs s) (hlz : LazyRanked rank s) (hrank : HdrRanked rank hdr) :
     Inv fs (loadTypelib fs fuel s hdr false).1 ∧
     (∀ l ∈ s.typelibs, l ∈ (loadTypelib fs fuel s hdr false).1.typelibs) ∧
     (∀ tl, (loadTypelib fs fuel s hdr false).2 = .ok tl →
       ∃ l ∈ (loadTypelib fs fuel s hdr false).1.typelibs, l.tl = tl ∧ l.ns = hdr.ns ∧ l.tl.hdr.ver = hdr.ver ∧
         (∀ d ∈ l.tl.hdr.deps, DepLoaded (loadTypelib fs fuel s hdr false).1 d) ∧
-        (getRegisteredStatus s hdr.ns (some hdr.ver) false = .absent false →
+        (getRegisteredStatus s hdr.ns (some hdr.ver) false = .absent none →
           l.tl.hdr = hdr ∧ l.source = builtinSource)) := by
-  have hp := load_post hr fuel s hdr false hinv hrank hst
+  obtain ⟨hp, hok⟩ := load_post hr fuel s hdr false hinv hlz hrank
   refine ⟨hp.inv, hp.ext, ?_⟩
   intro tl htl
-  have key : ∃ l ∈ (loadTypelib fs fuel s hdr false).1.typelibs, l.tl = tl ∧ l.ns = hdr.ns ∧
-      l.tl.hdr.ver = hdr.ver ∧
-      (getRegisteredStatus s hdr.ns (some hdr.ver) false = .absent false → l.tl.hdr = hdr ∧ l.source = builtinSource) := by
-    have hsame : getRegisteredStatus { s with nextId := s.nextId + 1 } hdr.ns (some hdr.ver) false
-        = getRegisteredStatus s hdr.ns (some hdr.ver) false := rfl
-    unfold loadTypelib at htl hst ⊢
-    simp only [hsame] at htl hst ⊢
-    cases hstat : getRegisteredStatus s hdr.ns (some hdr.ver) false with
-    | found t =>
-      simp only [hstat, Except.ok.injEq] at htl ⊢
-      subst htl
-      obtain ⟨h1, h2, h3⟩ := status_found hstat
-      rcases h3 with ⟨l, hl, hlt⟩ | ⟨h, _⟩
-      · exact ⟨l, hl, hlt, by unfold Loaded.ns; rw [hlt]; exact h1, by rw [hlt]; exact h2 _ rfl,
-          by intro h; cases h⟩
-      · cases h
-    | conflict v => simp [hstat] at htl
-    | absent b =>
-      simp only [hstat] at htl hst ⊢
-      obtain ⟨habsE, habsL⟩ := status_absent hstat
-      have hreqOK : ReqOK fs rank (fun s' dn dv => requireInternal fs fuel s' dn (some dv) false s'.searchPath) := by
-        intro s' dn dv hinv' hst'
-        obtain ⟨hp', hok⟩ := require_post hr fuel s' dn (some dv) false s'.searchPath hinv' hst'
-        refine ⟨hp', ?_⟩
-        intro tl' htl'
-        obtain ⟨h1, h2, h3⟩ := hok tl' htl'
-        obtain ⟨l, hl, hlt⟩ := h3 rfl
-        exact ⟨l, hl, by unfold Loaded.ns; rw [hlt]; exact h1, by rw [hlt]; exact h2 dv rfl⟩
-      have hmono : StaleMono (fun s' dn dv => requireInternal fs fuel s' dn (some dv) false s'.searchPath) :=
-        fun s' dn dv hs' => require_stale fs fuel s' dn (some dv) false s'.searchPath hs'
-      obtain ⟨_, hok⟩ := register_post hreqOK hmono { s with nextId := s.nextId + 1 } builtinSource false
-        ⟨s.nextId, hdr⟩ (hinv.congr rfl rfl) (Or.inl rfl) hrank habsE habsL hst
-      obtain ⟨h1, h2⟩ := hok tl htl
-      obtain ⟨l, hl, hlt, hsrc⟩ := h2 rfl
-      subst h1
-      refine ⟨l, hl, hlt, by unfold Loaded.ns; rw [hlt], by rw [hlt], ?_⟩
-      intro hb
-      have hb' : b = false := by injection hb
-      subst hb'
-      refine ⟨by rw [hlt], hsrc ?_⟩
-      -- not in the lazy table either: registered under the source given by load_typelib
-      unfold getRegisteredStatus at hstat
-      simp only [habsE] at hstat
-      cases hL : lookupTbl s.lazy hdr.ns with
-      | none => rfl
-      | some l' => simp [hL] at hstat
-  obtain ⟨l, hl, hlt, hns, hver, habs⟩ := key
-  exact ⟨l, hl, hlt, hns, hver, fun d hd => hp.inv.deps l hl d hd, habs⟩
+  obtain ⟨h1, h2, h3⟩ := hok tl htl
+  obtain ⟨l, hl, hlt, habs⟩ := h3 rfl
+  refine ⟨l, hl, hlt, by unfold Loaded.ns; rw [hlt]; exact h1, by rw [hlt]; exact h2,
+    fun d hd => hp.inv.deps l hl d hd, ?_⟩
+  intro ha
+  obtain ⟨e1, e2⟩ := habs ha
+  exact ⟨by rw [hlt]; exact e1, e2⟩
 
 /-- `g_irepository_enumerate_versions`: every version available on the search path (every file that
     counts as a version of `ns`, see `C17_latest`) is listed, and whatever is listed is available or is
@@ -585,14 +517,14 @@ theorem C17_enumerate_versions (fs : FS) (s : Repo) (ns : Str) :
     from the global path, see `C17_exact`): for an explicit version not registered yet, the file taken is
     `dir/ns-v.typelib`; when `dir` has no such file the call fails with NotFound whatever the global
     search path holds. -/
-theorem C17_private_dir (fs : FS) (fuel : Nat) (s : Repo) (dir ns v : Str) (lazy b : Bool)
-    (hns : ns ≠ selfName) (hst : getRegisteredStatus s ns (some v) lazy = .absent b) :
+theorem C17_private_dir (fs : FS) (fuel : Nat) (s : Repo) (dir ns v : Str) (lazy : Bool)
+    (hns : ns ≠ selfName) (hst : getRegisteredStatus s ns (some v) lazy = .absent none) :
     (¬ DirHas fs dir (exactFileName ns v) →
       requirePrivate fs (fuel + 1) s dir ns (some v) lazy = (s, .error .notFound)) ∧
     (∀ f, findVersion fs ns v [dir] = some f → f.path = buildFilename dir (exactFileName ns v)) ∧
     (∀ tl, (requirePrivate fs (fuel + 1) s dir ns (some v) lazy).2 = .ok tl →
       DirHas fs dir (exactFileName ns v) ∧ tl.hdr.ns = ns ∧ tl.hdr.ver = v) := by
-  have hex := C17_exact fs fuel s ns v lazy b [dir] hns hst
+  have hex := C17_exact fs fuel s ns v lazy [dir] hns hst
   have hself : (ns == selfName && v != selfVersion) = false := by simp [hns]
   have hfind : ∀ f, findVersion fs ns v [dir] = some f →
       DirHas fs dir (exactFileName ns v) ∧ f.path = buildFilename dir (exactFileName ns v) := by
@@ -702,19 +634,22 @@ example : (findLatest demoFS "Foo".toList demoPath).map (·.path) = some "/b/Foo
 example : getLoadedNamespaces (run demoFS 4 (Repo.init demoPath) [.require "Foo".toList none false])
     = ["Bar".toList, "Foo".toList] := by decide
 -- hypotheses of C17_exact / C17_latest are met by the initial state
-example : getRegisteredStatus (Repo.init demoPath) "Foo".toList (some "1.9".toList) false = .absent false := by decide
--- C17_inv_partial: `Guarded` and staleKey = false hold on a history with a load from memory
-example : (run demoFS 4 (Repo.init demoPath)
-    [.require "Foo".toList none false, .load ⟨"Baz".toList, "1.0".toList, ["Bar-1.0".toList]⟩ false,
-     .require "Foo".toList (some "1.9".toList) false, .prepend "/c".toList]).staleKey = false := by decide
--- …and on a lazy → eager transition (C17_inv_partial, C17_require_loaded): Foo 1.10 lazily loaded, then
--- required eagerly: it moves to the eager table under the same path, its dependency Bar is loaded
+example : getRegisteredStatus (Repo.init demoPath) "Foo".toList (some "1.9".toList) false = .absent none := by decide
+-- C17_inv / C17_require_loaded on a lazy → eager transition: Foo 1.10 lazily loaded, then required
+-- eagerly: the SAME typelib (id 0) moves to the eager table under the same path, its dependency Bar is
+-- loaded; requiring another version, with or without the LAZY flag, is a conflict
 def demoTransition : Repo := run demoFS 4 (Repo.init demoPath)
   [.require "Foo".toList none true, .require "Foo".toList (some "1.10".toList) false]
-example : demoTransition.staleKey = false ∧ demoTransition.lazy = [] ∧
+example : demoTransition.lazy = [] ∧
     getLoadedNamespaces demoTransition = ["Bar".toList, "Foo".toList] ∧
     getVersion demoTransition "Foo".toList = some "1.10".toList ∧
-    getTypelibPath demoTransition "Foo".toList = some "/b/Foo-1.10.typelib".toList := by decide
+    getTypelibPath demoTransition "Foo".toList = some "/b/Foo-1.10.typelib".toList ∧
+    (getRegistered demoTransition "Foo".toList).map (·.id) = some 0 := by decide
+example : (require demoFS 4 (run demoFS 4 (Repo.init demoPath) [.require "Foo".toList none true])
+    "Foo".toList (some "1.9".toList) false).2 = .error .versionConflict := by decide
+example : getRegisteredStatus (run demoFS 4 (Repo.init demoPath) [.require "Foo".toList none true])
+    "Foo".toList none false
+    = .absent (some ⟨"/b/Foo-1.10.typelib".toList, ⟨0, ⟨"Foo".toList, "1.10".toList, ["Bar-1.0".toList]⟩⟩⟩) := by decide
 example : (run demoFS 4 (Repo.init demoPath) [.require "Foo".toList none true]).lazy.map Loaded.ns
     = ["Foo".toList] := by decide
 example : Guarded demoFS 4 (fun n => if n = "Bar".toList then 0 else 1) (Repo.init demoPath)
@@ -726,7 +661,7 @@ example : Guarded demoFS 4 (fun n => if n = "Bar".toList then 0 else 1) (Repo.in
   have e : splitDep "Bar-1.0".toList = some ("Bar".toList, "1.0".toList) := by decide
   rw [e] at hsd; cases hsd
   decide
--- C17_require_loaded / C17_load_loaded / C17_inv_partial: demoFS is acyclic (`Ranked`)
+-- C17_require_loaded / C17_load_loaded / C17_inv: demoFS is acyclic (`Ranked`)
 example : Ranked demoFS (fun n => if n = "Bar".toList then 0 else 1) := by
   intro p h hfa dep hdep dn dv hsd
   obtain ⟨d, es, e, hd, he, _, rfl⟩ := hfa
@@ -748,10 +683,10 @@ example : Ranked demoFS (fun n => if n = "Bar".toList then 0 else 1) := by
   rw [h1]; decide
 -- C17_load_loaded: loading Baz (depends on Bar-1.0) from memory into the initial state loads Bar from /b
 example : (let r := loadTypelib demoFS 4 (Repo.init demoPath) ⟨"Baz".toList, "1.0".toList, ["Bar-1.0".toList]⟩ false
-           r.1.staleKey = false ∧ getLoadedNamespaces r.1 = ["Bar".toList, "Baz".toList] ∧
+           getLoadedNamespaces r.1 = ["Bar".toList, "Baz".toList] ∧
            getTypelibPath r.1 "Baz".toList = some builtinSource ∧
            getTypelibPath r.1 "Bar".toList = some "/b/Bar-1.0.typelib".toList) := by decide
-example : getRegisteredStatus (Repo.init demoPath) "Baz".toList (some "1.0".toList) false = .absent false := by decide
+example : getRegisteredStatus (Repo.init demoPath) "Baz".toList (some "1.0".toList) false = .absent none := by decide
 -- C17_enumerate_versions: both spellings-by-directory are listed once per version string
 example : enumerateVersionsQuery demoFS (Repo.init demoPath) "Foo".toList = ["1.9".toList, "1.10".toList] := by decide
 -- C17_private_dir: /c has Foo-1.10 (no dependencies) although /b comes first on the global path
